@@ -93,6 +93,9 @@ type Hist struct {
 	CoalesceMs int
 	CancelMs   int
 	CancelN    int
+	// with WriteStallMs > 0 the client->server link stalls inside the first frame of the first wave for that long:
+	// the contexts then expire DURING the Write call (after the flusher took the frames), not before it
+	WriteStallMs int
 	// the temporary-read-error family: the victim's response body is interrupted after CutClass (0: one
 	// byte, 1: the middle, 2: all but the last byte) by TempErrN (1..4) temporary read errors, then goes on;
 	// the responses of the other requests follow it on the wire. Everybody must get its own answer.
